@@ -1,6 +1,7 @@
 package c15
 
 import (
+	"bytes"
 	"fmt"
 	"strings"
 	"testing"
@@ -19,6 +20,10 @@ type DNSCase struct {
 	QType  uint16    `json:"qtype"`
 	QClass uint16    `json:"qclass"`
 	Off    int       `json:"off"`
+	// Name2: if valid, a second question is added with another SetQuestion call (QDCOUNT says how
+	// many questions follow the header, RFC 1035 4.1.2): the message must then be the
+	// one-question message followed by the second question, octet for octet
+	Name2 string `json:"name2,omitempty"`
 }
 
 func validName(s string) bool {
@@ -84,6 +89,27 @@ func runDNS(c DNSCase) *evid.Failure {
 	if i := poisonIntact(buf, c.Off, c.Off+12); i >= 0 {
 		return evid.Failf("oob:dns", "byte at %+d relative to the 12 byte header (capacity 12) changed", i-c.Off)
 	}
+	if validName(c.Name2) {
+		var msg2 []byte
+		if f := evid.Guard(func() *evid.Failure {
+			h := header.DNS(append([]byte(nil), msg...))
+			h.SetQuestion(c.Name2, c.QClass, c.QType)
+			msg2 = []byte(h)
+			return nil
+		}); f != nil {
+			return f
+		}
+		want := append([]byte(nil), msg...)
+		for _, l := range strings.Split(c.Name2, ".") {
+			want = append(want, byte(len(l)))
+			want = append(want, l...)
+		}
+		want = append(want, 0, byte(c.QClass>>8), byte(c.QClass), byte(c.QType>>8), byte(c.QType))
+		if !bytes.Equal(msg2, want) {
+			return evid.Failf("ref:dns.second-question", "after a second SetQuestion(%q) the message is % x, want the one-question message followed by the second question: % x", c.Name2, msg2, want)
+		}
+		evid.Label("dns_two_questions")
+	}
 	return nil
 }
 
@@ -140,7 +166,7 @@ func TestDNSSweep(t *testing.T) {
 	}
 	evid.Exhaustive("DNS query: all 65536 values of each of ID, QDCOUNT, ANCOUNT, NSCOUNT, ARCOUNT, QTYPE, QCLASS x 3 backgrounds")
 	for l := 1; l <= 63; l++ {
-		if !run(DNSCase{ID: uint16(l), Counts: [4]uint16{1}, Name: strings.Repeat("k", l), QType: 1, QClass: 1, Off: 2}, true) {
+		if !run(DNSCase{ID: uint16(l), Counts: [4]uint16{1}, Name: strings.Repeat("k", l), QType: 1, QClass: 1, Off: 2, Name2: "second.example"}, true) {
 			return
 		}
 		for l2 := 1; l2 <= 63; l2++ {
@@ -191,7 +217,8 @@ func genDNS(rt *rapid.T) DNSCase {
 	}
 	return DNSCase{ID: u16.Draw(rt, "id"),
 		Counts: [4]uint16{u16.Draw(rt, "qd"), u16.Draw(rt, "an"), u16.Draw(rt, "ns"), u16.Draw(rt, "ar")},
-		Name:   name, QType: u16.Draw(rt, "qtype"), QClass: u16.Draw(rt, "qclass"), Off: rapid.IntRange(0, 8).Draw(rt, "off")}
+		Name:   name, QType: u16.Draw(rt, "qtype"), QClass: u16.Draw(rt, "qclass"), Off: rapid.IntRange(0, 8).Draw(rt, "off"),
+		Name2: rapid.SampledFrom([]string{"", "", "b.example", "x", strings.Repeat("y", 63) + ".z", name}).Draw(rt, "name2")}
 }
 
 func TestDNSRandom(t *testing.T) {
